@@ -63,3 +63,59 @@ void h_BookKeeping(void) {
     VPOST(PCs[ActPC] == pc && Phases[ActPC] == ph, "C19: bookkeeping does not move the counters");
     VREACH("end");
 }
+
+/* ---- C11: "a macro argument is substituted only where a whole name matches" -------------------------------
+ * IsValidParameterName decides, for a candidate occurrence [Pos, End) in a line of length StrLen, whether it is
+ * a whole name: not preceded and not followed by a letter or digit.  Loop-free: complete for every line content,
+ * every position and every length up to the buffer size chosen here (the function never looks further). */
+static int is_alnum(char c) { return (c >= 'A' && c <= 'Z') || (c >= 'a' && c <= 'z') || (c >= '0' && c <= '9'); }
+void h_IsValidParameterName(void) {
+    as_dynstr_t s; int pos, end, len; unsigned cap; Boolean r; char before, after;
+    VND(cap, uint); VASSUME(cap >= 2 && cap <= 64);
+    s.p_str = malloc(cap); VASSUME(s.p_str != NULL); s.capacity = cap; s.dynamic = 1;
+    VND_BYTES(s.p_str, cap);
+    VND(len, int); VND(pos, int); VND(end, int);
+    VASSUME(len >= 0 && (unsigned)len < cap && pos >= 0 && pos < end && end <= len);   /* what ReplaceLine passes */
+    s.p_str[len] = 0;
+    before = pos > 0 ? s.p_str[pos - 1] : ' '; after = end < len ? s.p_str[end] : ' ';
+    r = IsValidParameterName(&s, pos, end, len);
+    VPOST((r != 0) == (!is_alnum(before) && !is_alnum(after)), "C11: an occurrence is a whole name iff it is neither preceded nor followed by a letter or digit (line start/end count as separators)");
+    VREACH("end");
+}
+/* SetToken: parameter number n (0..255 in practice < 16*15) becomes the two control bytes (n/16+1, n%16+1), NUL-terminated;
+ * distinct numbers give distinct tokens and no token byte is 0 */
+void h_SetToken(void) {
+    char a[3], b[3]; unsigned m, n;
+    VND(m, uint); VND(n, uint); VASSUME(m < 240 && n < 240);
+    SetToken(a, m); SetToken(b, n);
+    VPOST(a[0] != 0 && a[1] != 0 && a[2] == 0, "C11: a parameter token is two non-zero bytes");
+    VPOST((a[0] == b[0] && a[1] == b[1]) == (m == n), "C11: different parameters have different tokens");
+    VPOST((unsigned char)a[0] <= 16 && (unsigned char)a[1] <= 16, "C11: token bytes are control characters 1..16 (never letters or digits)");
+    VREACH("end");
+}
+/* CompressLine on short lines (bounded stand-in for the substitution loop of ReplaceLine): every whole-name
+ * occurrence of the one-letter parameter 'n' becomes the token, everything else stays, in order. */
+#ifndef VERIF_LINE_MAX
+#define VERIF_LINE_MAX 6
+#endif
+void h_CompressLine_short(void) {
+    as_dynstr_t s; char in[VERIF_LINE_MAX + 1], exp[2 * VERIF_LINE_MAX + 1], name[2]; int len, i, o = 0, cnt = 0, r; unsigned tok;
+    VND(len, int); VASSUME(len >= 0 && len <= VERIF_LINE_MAX);
+    s.capacity = 2 * VERIF_LINE_MAX + 2; s.p_str = malloc(s.capacity); VASSUME(s.p_str != NULL); s.dynamic = 1;
+    for (i = 0; i < VERIF_LINE_MAX; i++) { VND(in[i], char); VASSUME(in[i] != 0 && in[i] != '\\'); }
+    in[len] = 0;
+    for (i = 0; i <= len; i++) s.p_str[i] = in[i];
+    VND(tok, uint); VASSUME(tok < 240);
+    name[0] = 'n'; name[1] = 0;
+    for (i = 0; i < len; i++) {
+        if (in[i] == 'n' && (i == 0 || !is_alnum(in[i - 1])) && (i + 1 >= len || !is_alnum(in[i + 1]))) {
+            exp[o++] = (char)((tok >> 4) + 1); exp[o++] = (char)((tok & 15) + 1); cnt++;
+        } else exp[o++] = in[i];
+    }
+    exp[o] = 0;
+    r = CompressLine(name, tok, &s, True);
+    VPOST(r == cnt, "C11: CompressLine reports the number of whole-name occurrences");
+    { int same = 1; for (i = 0; i <= o; i++) if (s.p_str[i] != exp[i]) same = 0;
+      VPOST(same, "C11: exactly the whole-name occurrences of the parameter are replaced by its token; all other text is kept in order"); }
+    VREACH("end");
+}
